@@ -112,9 +112,111 @@ def msl(l: T.Iterable[str]) -> str:
     return '[' + ', '.join(msn(x) for x in l) + ']'
 
 
-def hostile(rng, extra: T.List[str], allow_nl: bool) -> str:
+_PLACEHOLDERS: T.Optional[T.List[str]] = None
+STATIC_PLACEHOLDERS = ['@INPUT@', '@OUTPUT@', '@INPUT0@', '@OUTPUT0@', '@OUTPUT1@', '@INPUT1@', '@OUTDIR@', '@PLAINNAME@',
+                       '@BASENAME@', '@PLAINNAME0@', '@BASENAME0@', '@DEPFILE@', '@PRIVATE_DIR@', '@SOURCE_ROOT@',
+                       '@BUILD_ROOT@', '@CURRENT_SOURCE_DIR@', '@BUILD_DIR@', '@SOURCE_DIR@', '@EXTRA_ARGS@', '@FOO@']
+
+
+def placeholders() -> T.List[str]:
+    """every @PLACEHOLDER@ literal that the command-rewriting functions of the current source mention (string
+    constants, f-string and regex forms give the plain and the indexed spelling), plus a static list"""
+    global _PLACEHOLDERS
+    if _PLACEHOLDERS is not None:
+        return _PLACEHOLDERS
+    import inspect
+    found = set(STATIC_PLACEHOLDERS)
+    try:
+        from mesonbuild.backend import backends as be, ninjabackend as nb
+        from mesonbuild import build as bld
+        from mesonbuild.utils import universal as U
+        objs = [be.Backend.eval_custom_target_command, be.Backend.replace_extra_args, be.Backend.replace_outputs,
+                nb.NinjaBackend.replace_paths, nb.NinjaBackend.generate_genlist_for_target, bld.Generator.get_arglist,
+                bld.Generator.get_base_outnames, bld.Generator.get_dep_outname, U.substitute_values,
+                U.get_filenames_templates_dict, U._substitute_values_check_errors]
+        for o in objs:
+            try:
+                src = inspect.getsource(o)
+            except (OSError, TypeError):
+                continue
+            for m in re.finditer(r'@([A-Z][A-Z_]*)([^@\s\'"]*)@', src):
+                found.add(f'@{m.group(1)}@')
+                if m.group(2):          # `{ii}`, `(\d+)`, `([0-9]+)?` …: the indexed spelling exists
+                    found.add(f'@{m.group(1)}0@')
+                    found.add(f'@{m.group(1)}1@')
+    except Exception:       # noqa: BLE001 - harvesting is best effort, the static list remains
+        pass
+    _PLACEHOLDERS = sorted(found)
+    return _PLACEHOLDERS
+
+
+def _split_ph(p: str) -> T.Tuple[str, str]:
+    m = re.fullmatch(r'@([A-Z_]+?)(\d*)@', p)
+    return (m.group(1), m.group(2)) if m else (p, '')
+
+
+def forbidden_ph(position: str, mode: str, source: str, p: str) -> bool:
+    """placeholders whose use in this argument source is a documented *error* (or has no defined value for the
+    projects generated here): they are not generated for that source"""
+    name, idx = _split_ph(p)
+    if source not in ('command', 'arguments'):
+        return False
+    if position == 'custom_target':
+        has_input = mode in ('input', 'feed')
+        if name in ('INPUT', 'PLAINNAME', 'BASENAME'):
+            return (not has_input) or idx not in ('', '0') or (name == 'INPUT' and idx == '' and mode == 'feed')
+        if name == 'OUTPUT':
+            return idx not in ('', '0') or (idx == '' and 'capture' in mode)
+        return name == 'DEPFILE'
+    if position == 'run_target':
+        return name in ('INPUT', 'OUTPUT', 'OUTDIR', 'PLAINNAME', 'BASENAME', 'DEPFILE', 'PRIVATE_DIR')
+    if position == 'generator':
+        return name == 'OUTPUT' and idx not in ('', '0')
+    return False
+
+
+def rules_for(position: str, mode: str, sid: str, source: str) -> T.Tuple[T.Dict[str, str], bool]:
+    """per argument source: the placeholders documented to be substituted there (docs/yaml/functions/custom_target.yaml,
+    generator.yaml, run_target.yaml) with their values in the generated project layout, and whether the established
+    backslash -> '/' rewrite applies.  Everything else must arrive byte-identical."""
+    if source == 'command' and position == 'custom_target':
+        d = {'@OUTPUT@': sid + '.out', '@OUTPUT0@': sid + '.out', '@OUTDIR@': '.', '@SOURCE_ROOT@': '../src',
+             '@BUILD_ROOT@': '.', '@CURRENT_SOURCE_DIR@': '../src/', '@PRIVATE_DIR@': sid + '.out.p'}
+        if mode in ('input', 'feed'):
+            d.update({'@INPUT@': '../src/feed.txt', '@INPUT0@': '../src/feed.txt', '@PLAINNAME@': 'feed.txt',
+                      '@PLAINNAME0@': 'feed.txt', '@BASENAME@': 'feed', '@BASENAME0@': 'feed'})
+        return d, True
+    if source == 'command' and position == 'run_target':
+        return {'@SOURCE_ROOT@': '../src', '@BUILD_ROOT@': '.', '@CURRENT_SOURCE_DIR@': '../src/'}, True
+    if source == 'arguments' and position == 'generator':
+        return {'@INPUT@': f'../src/{sid}.in', '@OUTPUT@': f'x{sid}.p/{sid}.h', '@OUTPUT0@': f'x{sid}.p/{sid}.h',
+                '@PLAINNAME@': f'{sid}.in', '@BASENAME@': sid, '@BUILD_DIR@': f'x{sid}.p', '@SOURCE_DIR@': '../src',
+                '@CURRENT_SOURCE_DIR@': '../src', '@SOURCE_ROOT@': '../src', '@BUILD_ROOT@': '.'}, True
+    return {}, False
+
+
+def ph_strings(position: str, mode: str, source: str) -> T.List[str]:
+    """every harvested placeholder, alone and embedded between backslash / metacharacter text, allowed in this source"""
+    out = []
+    for p in placeholders():
+        if forbidden_ph(position, mode, source, p):
+            continue
+        if not (p == '@EXTRA_ARGS@' and source == 'arguments'):   # the harness places the one whole-word @EXTRA_ARGS@
+            out.append(p)
+        out.append('a\\b' + p + '$x')
+        out.append("q'" + p + ' z')
+    return out
+
+
+def hostile(rng, extra: T.List[str], allow_nl: bool, src: T.Optional[T.Tuple[str, str, str]] = None) -> str:
+    """`src` = (position, mode, argument source): placeholder-bearing strings are drawn for every source, minus the
+    ones that are documented errors there"""
     from .c03 import rand_string, ALPHABET
     r = rng.random()
+    if rng.random() < 0.25:
+        pool = ph_strings(*(src or ('none', '', 'identity')))
+        if pool:
+            return rng.choice(pool)
     if extra and r < 0.3:
         s = rng.choice(extra)
     elif r < 0.55:
@@ -135,6 +237,13 @@ def hostile(rng, extra: T.List[str], allow_nl: bool) -> str:
 
 # ---------------------------------------------------------------- expected argv (from the property statement)
 
+def apply_rules(a: str, subst: T.Dict[str, str], backslash: bool) -> str:
+    if subst:
+        rx = re.compile('|'.join(re.escape(k) for k in sorted(subst, key=len, reverse=True)))
+        a = rx.sub(lambda m: subst[m.group(0)], a)
+    return a.replace('\\', '/') if backslash else a
+
+
 def expect_custom(args: T.List[str], subst: T.Dict[str, str]) -> T.List[T.List[str]]:
     """custom_target / run_target / generator: @TEMPLATE@ substituted, backslash -> '/', `&&` separates"""
     cmds: T.List[T.List[str]] = [[]]
@@ -142,9 +251,7 @@ def expect_custom(args: T.List[str], subst: T.Dict[str, str]) -> T.List[T.List[s
         if a == '&&':
             cmds.append([])
             continue
-        for k, v in subst.items():
-            a = a.replace(k, v)
-        cmds[-1].append(a.replace('\\', '/'))
+        cmds[-1].append(apply_rules(a, subst, True))
     return cmds
 
 
@@ -156,6 +263,7 @@ class Site(T.NamedTuple):
     mode: str          # plain | capture | feed | env | workdir | rsp
     args: T.List[str]
     env: T.List[T.Tuple[str, str]]
+    extra: T.List[str] = []     # generator: process(extra_args: …), expanded at @EXTRA_ARGS@
 
 
 def gen_project(rng, idx: int, kind: str, extra: T.List[str], nsites: int) -> T.Tuple[T.List[Site], str]:
@@ -183,6 +291,54 @@ def gen_project(rng, idx: int, kind: str, extra: T.List[str], nsites: int) -> T.
         args = ['-DV0=a\nb']
         L.append(f"executable('e0', 'main.c', c_args: {msl(args)})")
         sites.append(Site('e0', 'c_args', 'plain', args, []))
+        return sites, '\n'.join(L) + '\n'
+    if kind == 'templates':
+        # every placeholder literal of the current source, alone and embedded in backslash/metacharacter text, in EVERY
+        # argument source of every command-carrying construct; the oracle knows per source which ones are documented
+        def strs(position, mode, source):
+            return ph_strings(position, mode, source) + ['a\\b', '$x y', "it's"]
+        n = 0
+        for mode, kws in (('plain', []), ('input', ["input: 'feed.txt'"]), ('capture', ['capture: true']),
+                          ('feed', ["input: 'feed.txt'", 'feed: true'])):
+            sid = f'ct{n}'
+            n += 1
+            args = strs('custom_target', mode, 'command')
+            evals = strs('custom_target', mode, 'env')
+            env = [(f'MV_E{j}', v) for j, v in enumerate(evals)] if mode == 'plain' else []
+            kw = [f"output: '{sid}.out'"] + kws
+            if env:
+                envdef(f'env_{sid}', env)
+                kw.append(f'env: env_{sid}')
+            L.append(f"custom_target('{sid}', {', '.join(kw)}, command: [py, dump{''.join(', ' + msn(a) for a in args)}])")
+            sites.append(Site(sid, 'custom_target', mode, args, env))
+        args = strs('run_target', 'env', 'command')
+        env = [(f'MV_E{j}', v) for j, v in enumerate(strs('run_target', 'env', 'env'))]
+        envdef('env_rt0', env)
+        L.append(f"run_target('rt0', command: [py, dump{''.join(', ' + msn(a) for a in args)}], env: env_rt0)")
+        sites.append(Site('rt0', 'run_target', 'env', args, env))
+        for sid, mode in (('g0', 'env'), ('g1', 'capture')):
+            args = strs('generator', mode, 'arguments')
+            xargs = strs('generator', mode, 'extra_args')
+            env = [(f'MV_E{j}', v) for j, v in enumerate(strs('generator', mode, 'env'))] if mode == 'env' else []
+            kw = ', capture: true' if mode == 'capture' else ''
+            pkw = f', extra_args: {msl(xargs)}'
+            if env:
+                envdef(f'env_{sid}', env)
+                pkw += f', env: env_{sid}'
+            L.append(f"gen_{sid} = generator(py, output: '@BASENAME@.h'{kw}, "
+                     f"arguments: [{', '.join(["meson.current_source_dir() / 'dump.py'"] + [msn(a) for a in args] + [msn('@EXTRA_ARGS@'), msn('@INPUT@'), msn('@OUTPUT@')])}])")
+            L.append(f"executable('x{sid}', 'main.c', gen_{sid}.process('{sid}.in'{pkw}))")
+            sites.append(Site(sid, 'generator', mode, args, env, xargs))
+        targs = strs('test', 'env', 'args')
+        env = [(f'MV_E{j}', v) for j, v in enumerate(strs('test', 'env', 'env'))]
+        envdef('env_t0', env)
+        L.append(f"test('t0', py, args: [dump, 'mvid=t0'{''.join(', ' + msn(a) for a in targs)}], env: env_t0)")
+        sites.append(Site('t0', 'test', 'env', targs, env))
+        cargs = [f'-DT{j}=' + v for j, v in enumerate(strs('c_args', 'plain', 'args'))]
+        largs = [f'-Wl,--t{j}=' + v for j, v in enumerate(strs('link_args', 'plain', 'args'))]
+        L.append(f"executable('e0', 'main.c', c_args: {msl(cargs)}, link_args: {msl(largs)})")
+        sites.append(Site('e0', 'c_args', 'plain', cargs, []))
+        sites.append(Site('e0', 'link_args', 'plain', largs, []))
         return sites, '\n'.join(L) + '\n'
     if kind == 'crosstalk':
         # families of commands that agree in every field that names the pickled wrapper file except one
@@ -325,7 +481,7 @@ def gen_project(rng, idx: int, kind: str, extra: T.List[str], nsites: int) -> T.
         n = rng.randint(1, 4)
         if pos == 'custom_target':
             mode = rng.choice(['plain', 'plain', 'capture', 'feed', 'input', 'env', 'env+capture', 'andand'])
-            args = [hostile(rng, extra, True) for _ in range(n)]
+            args = [hostile(rng, extra, True, ('custom_target', mode, 'command')) for _ in range(n)]
             if rng.random() < 0.4:
                 tpl = ['@OUTDIR@', '@SOURCE_ROOT@', '@BUILD_ROOT@/z']
                 if 'capture' not in mode:      # meson rejects capture together with @OUTPUT@
@@ -346,7 +502,7 @@ def gen_project(rng, idx: int, kind: str, extra: T.List[str], nsites: int) -> T.
                 envdef(f'env_{sid}', env)
                 kw.append(f'env: env_{sid}')
             if mode == 'andand':
-                more = [hostile(rng, extra, False) for _ in range(rng.randint(0, 2))]
+                more = [hostile(rng, extra, False, ('custom_target', mode, 'command')) for _ in range(rng.randint(0, 2))]
                 args = [a.replace('\n', 'N') for a in args]
                 cmd = 'py, dump, ' + ', '.join(msn(a) for a in args) + ", '&&', py, dump" + \
                       ''.join(', ' + msn(a) for a in more)
@@ -357,7 +513,7 @@ def gen_project(rng, idx: int, kind: str, extra: T.List[str], nsites: int) -> T.
             L.append(f"custom_target('{sid}', {', '.join(kw)}, command: [{cmd}])")
         elif pos == 'run_target':
             mode = rng.choice(['plain', 'plain', 'env'])
-            args = [hostile(rng, extra, True) for _ in range(n)]
+            args = [hostile(rng, extra, True, ('run_target', mode, 'command')) for _ in range(n)]
             if rng.random() < 0.3:
                 args.append(rng.choice(['@SOURCE_ROOT@', 'r=@BUILD_ROOT@']))
             sid = f'rt{i}'
@@ -369,14 +525,20 @@ def gen_project(rng, idx: int, kind: str, extra: T.List[str], nsites: int) -> T.
             L.append(f"run_target('{sid}', command: [py, dump{''.join(', ' + msn(a) for a in args)}]{kw})")
             sites.append(Site(sid, pos, mode, args, env))
         elif pos == 'generator':
-            mode = rng.choice(['plain', 'plain', 'capture'])
-            args = [hostile(rng, extra, True) for _ in range(n)]
+            mode = rng.choice(['plain', 'plain', 'capture', 'env'])
+            args = [hostile(rng, extra, True, ('generator', mode, 'arguments')) for _ in range(n)]
+            xargs = [hostile(rng, extra, True, ('generator', mode, 'extra_args')) for _ in range(rng.randint(0, 3))]
             sid = f'g{i}'
+            env = mkenv(sid, True) if mode == 'env' else []
             kw = ', capture: true' if mode == 'capture' else ''
+            pkw = f', extra_args: {msl(xargs)}'
+            if env:
+                envdef(f'env_{sid}', env)
+                pkw += f', env: env_{sid}'
             L.append(f"gen_{sid} = generator(py, output: '@BASENAME@.h'{kw}, "
-                     f"arguments: [{', '.join(["meson.current_source_dir() / 'dump.py'"] + [msn(a) for a in args] + [msn('@INPUT@'), msn('@OUTPUT@')])}])")
-            L.append(f"executable('x{sid}', 'main.c', gen_{sid}.process('{sid}.in'))")
-            sites.append(Site(sid, pos, mode, args, []))
+                     f"arguments: [{', '.join(["meson.current_source_dir() / 'dump.py'"] + [msn(a) for a in args] + [msn('@EXTRA_ARGS@'), msn('@INPUT@'), msn('@OUTPUT@')])}])")
+            L.append(f"executable('x{sid}', 'main.c', gen_{sid}.process('{sid}.in'{pkw}))")
+            sites.append(Site(sid, pos, mode, args, env, xargs))
         elif pos == 'test':
             mode = rng.choice(['plain', 'env', 'workdir'])
             args = [hostile(rng, extra, True) for _ in range(n)]
@@ -540,13 +702,13 @@ def ordered_once(hay: T.List[str], needles: T.List[str]) -> T.Optional[str]:
 
 def case_of(kind: str, site: Site, extra: dict) -> dict:
     d = {'position': site.position, 'mode': site.mode, 'project_kind': kind, 'sid': site.sid, 'args': site.args,
-         'env': site.env}
+         'env': site.env, 'extra_args': list(site.extra)}
     d.update(extra)
     return d
 
 
 def key_of(site: Site) -> str:
-    return f'{site.position}/{site.mode}:{site.args!r}:{site.env!r}'.replace(' ', '␣')
+    return f'{site.position}/{site.mode}:{site.args!r}:{site.env!r}:{list(site.extra)!r}'.replace(' ', '␣')
 
 
 def prepare_project(root: str, kind: str, sites: T.List[Site], text: str) -> T.Tuple[int, str]:
@@ -693,17 +855,14 @@ def _evaluate_project(ctx: Ctx, root: str, b: str, dumpdir: str, kind: str, site
                           case_of(kind, s, {'raw_COMMAND': cmdvar}))
             continue
         if s.position in ('custom_target', 'run_target', 'generator'):
-            subst = {'@SOURCE_ROOT@': '../src', '@BUILD_ROOT@': '.'}
-            if s.position == 'custom_target':
-                subst.update({'@OUTPUT@': s.sid + '.out', '@OUTPUT0@': s.sid + '.out', '@OUTDIR@': '.'})
-                if s.mode == 'input':
-                    subst.update({'@INPUT@': '../src/feed.txt', '@INPUT0@': '../src/feed.txt',
-                                  '@PLAINNAME@': 'feed.txt', '@BASENAME@': 'feed'})
+            subst, _bs = rules_for(s.position, s.mode, s.sid, 'arguments' if s.position == 'generator' else 'command')
             want = expect_custom(s.args, subst)
             got = [r['argv'] for r in recs]
             if s.position == 'generator':
-                # trailing @INPUT@ @OUTPUT@ words are path plumbing, not user strings
+                # `arguments` (rewritten as documented), then extra_args at @EXTRA_ARGS@ byte-identical; the trailing
+                # @INPUT@ @OUTPUT@ words are path plumbing, not user strings
                 got = [g[:-2] for g in got]
+                want = [want[0] + list(s.extra)]
             if s.mode == 'andand':
                 # the second command is `py dump more…`: its argv[0] (the dumper script path) is dropped by python
                 pass
@@ -955,12 +1114,12 @@ def check_pickles(ctx: Ctx, b: str, kind: str, jobs) -> None:
         except Exception as e:      # noqa: BLE001
             ctx.violation(key_of(s), f'the wrapper file {path} cannot be read back: {type(e).__name__}: {e}', case_of(kind, s, {}))
             continue
-        subst = {'@SOURCE_ROOT@': '../src', '@BUILD_ROOT@': '.', '@OUTPUT@': s.sid + '.out', '@OUTPUT0@': s.sid + '.out',
-                 '@OUTDIR@': '.', '@INPUT@': '../src/feed.txt', '@INPUT0@': '../src/feed.txt',
-                 '@PLAINNAME@': 'feed.txt', '@BASENAME@': 'feed'}
+        subst, _bs = rules_for(s.position, s.mode, s.sid, 'arguments' if s.position == 'generator' else 'command')
         want = expect_custom(s.args, subst)
         if len(want) != 1:
             continue
+        if s.position == 'generator':
+            want = [want[0] + list(s.extra)]
         tail = got_args[2:-2] if s.position == 'generator' else got_args[2:]
         want_env = expected_env(s.env, base)
         if tail != want[0] or got_env != want_env:
@@ -1023,7 +1182,7 @@ def run_e2e(ctx: Ctx, scratch: str, extra_strings: T.Optional[T.List[str]] = Non
         sites, text = gen_project(rng, idx, 'rsp', extra, 4)
         plan.append(('rsp', sites, text))
         idx += 1
-    for kind in ('crosstalk', 'tests', 'optlike', 'nl-env', 'nl-compile'):
+    for kind in ('templates', 'crosstalk', 'tests', 'optlike', 'nl-env', 'nl-compile'):
         sites, text = gen_project(rng, idx, kind, extra, 1)
         plan.append((kind, sites, text))
         idx += 1
@@ -1048,7 +1207,7 @@ def replay_case(ctx: Ctx, scratch: str, case: dict) -> None:
     """re-run one recorded site in a one-target project"""
     kind = case.get('project_kind', 'mixed')
     s = Site(case.get('sid', 's0'), case['position'], case.get('mode', 'plain'), list(case.get('args', [])),
-             [tuple(e) for e in case.get('env', [])])
+             [tuple(e) for e in case.get('env', [])], list(case.get('extra_args', [])))
     if case['position'] == 'project':
         text = case['meson_build']
         sites: T.List[Site] = []
@@ -1092,8 +1251,8 @@ def single_site_project(s: Site, kind: str) -> T.Tuple[T.List[Site], str]:
         L.append(f"run_target('{sid}', command: [py, dump{a}]{envkw})")
     elif s.position == 'generator':
         kw = ', capture: true' if s.mode == 'capture' else ''
-        L.append(f"gen = generator(py, output: '@BASENAME@.h'{kw}, arguments: [meson.current_source_dir() / 'dump.py'{a}, '@INPUT@', '@OUTPUT@'])")
-        L.append(f"executable('x{sid}', 'main.c', gen.process('{sid}.in'))")
+        L.append(f"gen = generator(py, output: '@BASENAME@.h'{kw}, arguments: [meson.current_source_dir() / 'dump.py'{a}, '@EXTRA_ARGS@', '@INPUT@', '@OUTPUT@'])")
+        L.append(f"executable('x{sid}', 'main.c', gen.process('{sid}.in', extra_args: {msl(s.extra)}{envkw}))")
     elif s.position == 'test':
         kw = envkw + (", workdir: meson.current_source_dir()" if s.mode == 'workdir' else '')
         L.append(f"test('{sid}', py, args: [dump, 'mvid={sid}'{a}]{kw})")
